@@ -190,6 +190,21 @@ fn scls(s: &ScalarSpec) -> &'static str {
     }
 }
 
+/// scratch directory of this process for the file round: a memory file system where there is one (millions of small
+/// files are created and removed; on the disk the journal, not the code under test, sets the pace), the target dir otherwise
+fn scratch_root() -> &'static str {
+    static ROOT: std::sync::OnceLock<String> = std::sync::OnceLock::new();
+    ROOT.get_or_init(|| {
+        let shm = format!("/dev/shm/qzv-c13-{}", std::process::id());
+        if std::fs::create_dir_all(&shm).is_ok() && std::fs::write(format!("{}/probe", shm), "x").is_ok() {
+            let _ = std::fs::remove_file(format!("{}/probe", shm));
+            shm
+        } else {
+            format!("/verif/target/scratch/c13-{}", std::process::id())
+        }
+    })
+}
+
 pub fn judge<G: GraphLike + 'static>(st: &mut Stats, case: &Case, backend: &'static str, with_eval: bool) {
     st.inc("evaluations");
     let g: G = case.build();
@@ -216,7 +231,8 @@ pub fn judge<G: GraphLike + 'static>(st: &mut Stats, case: &Case, backend: &'sta
         let decoded = guarded(|| {
             if via_file {
                 static NEXT: std::sync::atomic::AtomicU64 = std::sync::atomic::AtomicU64::new(0);
-                let dir = format!("/verif/target/scratch/c13-{}", std::process::id());
+                // one directory per worker thread: sixteen threads creating and removing files in one directory serialise on it
+                let dir = format!("{}/{}", scratch_root(), rayon::current_thread_index().unwrap_or(999));
                 let _ = std::fs::create_dir_all(&dir);
                 let f = format!("{}/g-{}.qgraph", dir, NEXT.fetch_add(1, std::sync::atomic::Ordering::Relaxed));
                 let path = std::path::Path::new(&f);
@@ -404,6 +420,7 @@ pub fn run(rep: &mut Report) {
         judge_serde(st, case);
         watch_end();
     });
+    let _ = std::fs::remove_dir_all(scratch_root());
     rep.absorb("decorations", &format!("{} fixed shapes x (phases k/d for every d <= 256, a 5x5 coordinate grid, H-box vertices, {} scalars: sqrt2^p e^(ik pi/4) grid, ring elements from Clifford+T rewriting, floats, zero)", shapes.len(), scalar_grid(quick).len()), true, None, t0, stats);
 }
 
